@@ -5,10 +5,10 @@ import re
 from harness import tlcrun
 from harness.tlcrun import MachineryError
 
-_BEH_RE = re.compile(r'<<"BEH", "((?:[^"\\]|\\.)*)">>')
+_BEH_RE = re.compile(r'<<\s*"BEH",\s*"((?:[^"\\]|\\.)*)"\s*>>', re.S)
 
 
-def behaviours(module, constants, simulate=None, depth=None, seed=0, timeout=900, invariant='Emit',
+def behaviours(module, constants, simulate=None, depth=None, seed=0, timeout=400, invariant='Emit',
                constraint=None, run=None, limit=None):
     """Run Gen_* module; return list of behaviours (parsed JSON values).
 
